@@ -432,3 +432,34 @@ Definition ex_pr (v : Z) : str := [48; v]%Z.
 Definition ex_pri (k : nat) : str := [Z.of_nat k].
 Definition ex_pa (s : str) : Z := match s with [_; v] => v | [k] => k | _ => 0%Z end.
 Definition ex_uniq (l : list (Z * Z)) := (l, seq 0 (length l)).
+
+(* ---- polyline format (partial): the rows of ONE polyline are paired consecutively ---- *)
+Lemma combine_seq_succ a n : combine (seq a n) (seq (S a) n) = map (fun i => (i, S i)) (seq a n).
+Proof.
+  revert a. induction n as [|n IH]; intro a; [reflexivity|].
+  cbn [seq combine map]. f_equal. apply IH.
+Qed.
+
+Lemma poly_edges_single (fi : Z) (n : nat) :
+  2 <= n ->
+  poly_edges (repeat fi n) fi = Ok (map (fun i => (i, S i)) (seq 0 (n - 1))).
+Proof.
+  intro Hn. unfold poly_edges. rewrite repeat_length.
+  assert (Hall : filter (fun i => Z.eqb (nth i (repeat fi n) 0%Z) fi) (seq 0 n) = seq 0 n).
+  { clear Hn.
+    assert (H : forall i, In i (seq 0 n) -> Z.eqb (nth i (repeat fi n) 0%Z) fi = true).
+    { intros i Hi. apply Z.eqb_eq. apply (repeat_spec n fi). apply nth_In.
+      rewrite repeat_length. apply in_seq in Hi. lia. }
+    induction (seq 0 n) as [|x l IH]; [reflexivity|].
+    cbn [filter]. rewrite (H x (or_introl eq_refl)). f_equal. apply IH.
+    intros i Hi. apply H. right. exact Hi. }
+  rewrite Hall.
+  destruct n as [|[|[|n]]]; try lia; [reflexivity|].
+  cbn [seq].
+  assert (Hlast : last (0 :: 1 :: 2 :: seq 3 n) 0 = S (S n)).
+  { change (0 :: 1 :: 2 :: seq 3 n) with (seq 0 (S (S (S n)))).
+    rewrite seq_S. rewrite last_last. reflexivity. }
+  rewrite Hlast. rewrite !seq_length, Nat.eqb_refl.
+  replace (S (S n) - 0) with (S (S n)) by lia. replace (S (S (S n)) - 1) with (S (S n)) by lia.
+  f_equal. apply combine_seq_succ.
+Qed.
